@@ -48,12 +48,13 @@ class SeededDraws(object):
         return self.r.randrange(n)
 
 
-def strong_weak(interp, text, m):
+def strong_weak(interp, text, m0):
     """(strong, weak) readings of a system of lines"""
     S, W = [], []
     for l in [l for l in text.strip().split('\n') if l.strip()]:
         lhs, c, rhs = X.split(l)
         a, b = interp.expr(lhs), interp.expr(rhs)
+        m = m0 * (1 + interp.absmag(lhs) + interp.absmag(rhs))       # margin relative to the scale of this line's own terms
         if c in ('<', '<='):
             S.append(a <= b - m)
             W.append(a <= b + m)
@@ -69,13 +70,18 @@ def strong_weak(interp, text, m):
     return (z3.And(*S) if S else z3.BoolVal(True)), (z3.And(*W) if W else z3.BoolVal(True))
 
 
-def py_strong_weak(text, vals, m):
+def py_strong_weak(text, vals, m0):
     S, W = True, True
     for l in [l for l in text.strip().split('\n') if l.strip()]:
         r, a, b = X.py_eval_line(l, vals)
         if r is None:
             return None, None
         c = X.comparator(l)
+        lhs_, _c, rhs_ = X.split(l)
+        try:
+            m = m0 * (1 + X.py_absmag(lhs_, vals) + X.py_absmag(rhs_, vals))
+        except ZeroDivisionError:
+            return None, None
         if c in ('<', '<='):
             S, W = S and a <= b - m, W and a <= b + m
         elif c in ('>', '>='):
@@ -91,9 +97,13 @@ def equivalence(text, produce, variables, label):
     """produce(text) -> tuple of output systems (cases)"""
     def h(ctx):
         xs = [ctx.real(v) for v in variables]
-        stubs.ORACLE.override = SeededDraws(int(getattr(ctx, 'seed', 0)) + hash(text) % 1000)
+        stubs.ORACLE.override = SeededDraws(int(getattr(ctx, 'seed', 0)) + sum(map(ord, text)) % 1000)
         try:
             outs = produce(text)
+        except (SyntaxError, ZeroDivisionError, ValueError, TypeError, IndexError, NotImplementedError) as e:
+            # the property speaks about the results simplify RETURNS; a rejected system yields nothing to compare
+            ctx.note('%s: %r raised %s' % (label, text, type(e).__name__))
+            return [('no-result-returned', const(True))]
         finally:
             stubs.ORACLE.override = None
         if isinstance(outs, str):
@@ -252,8 +262,9 @@ def gen_line(rng, vars_, kind):
         k = rng.randint(1, len(vars_))
         lhs = lin(rng, vars_, k)
         rhs = rng.choice(CONST)
-        if rng.random() < 0.4 and len(vars_) > 1:
-            rhs = lin(rng, vars_, 1) + ' + ' + rhs
+        free = [v for v in vars_ if v not in lhs.replace('*', ' ').replace('-', ' ').split()]
+        if rng.random() < 0.4 and free:          # (a variable on both sides may cancel identically: that degenerate case is a fixed instance)
+            rhs = lin(rng, free, 1) + ' + ' + rhs
         return '%s %s %s' % (lhs, c, rhs.replace('+ -', '- '))
     a, b = rng.sample(vars_, 2) if len(vars_) > 1 else (vars_[0], vars_[0])
     c = rng.choice(['<', '<=', '>', '>='])
@@ -302,6 +313,7 @@ FIXED = [
     ("x0 > 2\nx0 > 4", ['x0']),
     ("a + 2*b <= 4\nb - a >= 1", ['a', 'b']),
     ("alpha - 3*beta > 2", ['alpha', 'beta']),
+    ("x0 = x0 - 2\nx1 <= 1", ['x0', 'x1']),
 ]
 
 LINEAR_SOLVE = [
